@@ -490,6 +490,12 @@ top:
 		if err != nil {
 			return err
 		}
+		if r == '*' {
+			// another asterisk: the one just written belongs to the
+			// comment text, this one may still be the start of the
+			// closing */ (as in **/).
+			return nil
+		}
 		lexer.state = LexerCommentBlock
 		goto writeRuneToBuffer
 
